@@ -213,6 +213,27 @@ def s_obstacle(role):
     return strat
 
 
+def s_uncertain_obstacle(tier):
+    """Obstacles whose initial state (and, for dynamic ones, a predicted state) has a region-valued position and / or an
+    interval-valued orientation: the derived occupancy moves rigidly with the obstacle."""
+    from crverif.props import c04
+
+    def build(t):
+        r, t0, more = t
+        a = {"position": {"shape": r["region"]} if r["region"] is not None else r["pos"], "orientation": r["ori"],
+             "velocity": 1.0, "acceleration": 0.0, "yaw_rate": 0.0, "slip_angle": 0.0}
+        ob = {"role": r["role"], "id": 5, "type": "CAR" if r["role"] == "dynamic" else "PARKED_VEHICLE",
+              "shape": r["shape"], "init": {"cls": "InitialState", "t": t0, "a": a}}
+        if r["role"] == "dynamic" and more:
+            states = [{"cls": "KSState", "t": t0 + 1 + k, "a": {
+                "position": {"shape": gg.recentre_to(r["region"], [3.0 * (k + 1), 1.0 * k])} if r["region"] is not None
+                else [r["pos"][0] + 3.0 * (k + 1), r["pos"][1] + k], "orientation": r["ori"], "velocity": 1.0,
+                "steering_angle": 0.0}} for k in range(more)]
+            ob["pred"] = {"k": "traj", "traj": {"t0": t0 + 1, "states": states}}
+        return ob
+    return st.tuples(c04.s_uncertain(tier), st.integers(0, 3), st.integers(0, 2)).map(build)
+
+
 def s_lanelet(tier):
     def attach(pl):
         # the centre line is an independent constructor argument: in half of the cases it is NOT the mid line
@@ -292,6 +313,9 @@ FACETS = [
     facet("static-obstacle", s_obstacle("static"), gs.build_obstacle, 1500, 80000, "static obstacles", 1),
     facet("dynamic-obstacle", s_obstacle("dynamic"), gs.build_obstacle, 2000, 100000,
           "dynamic obstacles with trajectory (every state class) / set-based / no prediction", 1),
+    facet("uncertain-obstacle", s_uncertain_obstacle, gs.build_obstacle, 1500, 60000,
+          "static / dynamic obstacles with region-valued positions and interval-valued orientations incl. the derived "
+          "occupancies", 1),
     facet("phantom-obstacle", s_obstacle("phantom"), gs.build_obstacle, 1000, 50000, "phantom obstacles", 1),
     facet("environment-obstacle", s_obstacle("environment"), gs.build_obstacle, 1000, 50000,
           "environment obstacles of every shape kind", 1),
